@@ -245,13 +245,7 @@ void Binson::deseralizeItems(binson_parser *p)
 
 void Binson::deserialize(const std::vector<uint8_t> &data)
 {
-    BINSON_PARSER_DEF(p);
-    clear();
-
-    binson_parser_init(&p, const_cast<uint8_t*>(data.data()), data.size());
-    binson_parser_go_into_object(&p);
-    deseralizeItems(&p);
-    binson_parser_leave_object(&p);
+    deserialize(data.data(), data.size());
 }
 
 void Binson::deserialize(const uint8_t *data, size_t size)
